@@ -120,8 +120,24 @@ def run(ctx, prop):
             nodes.append({"k": "struct", "name": f"R{j}", "fields": fields})
         return {"id": f"C06-raw-{ctx.seed}-{k}", "files": [{"path": "main.idl", "nodes": nodes}], "main": "main.idl", "incdirs": []}
 
+    def permuted_case(k):
+        """field permutations of padding-free structs: the total size is unchanged, only interior
+        alignment can break"""
+        rng = ctx.rng
+        sizes = [1, 2, 4, 8]
+        names = {1: ["uint8", "int8"], 2: ["uint16", "int16"], 4: ["uint32", "int32", "float32"], 8: ["uint64", "int64", "float64"]}
+        nodes = []
+        for j in range(3):
+            fs = sorted((rng.choice(sizes) for _ in range(rng.randint(3, 6))), reverse=True)
+            while sum(fs) % max(fs):
+                fs.append(1)
+            rng.shuffle(fs)
+            nodes.append({"k": "struct", "name": f"Q{j}", "fields": [{"type": rng.choice(names[s_]), "count": 1, "name": f"q{j}_{q}"} for q, s_ in enumerate(fs)]})
+        return {"id": f"C06-perm-{ctx.seed}-{k}", "files": [{"path": "main.idl", "nodes": nodes}], "main": "main.idl", "incdirs": []}
+
     work = [("valid", gen.gen_case(ctx.rng, opts, cid=f"C06-{ctx.seed}-{i}")) for i in range(n)]
-    work += [("raw", raw_case(i)) for i in range(n * 4)]
+    work += [("raw", permuted_case(i)) for i in range({"quick": 60, "thorough": 1500}[ctx.tier])]
+    work += [("raw", raw_case(i)) for i in range({"quick": 150, "thorough": 3000}[ctx.tier])]
     hist["raw_rejected"] = 0
     hist["raw_accepted"] = 0
     for origin, case in work:
